@@ -674,7 +674,8 @@ class Session(AbstractSession):
         if dest is not None:
             dest_field = val.field_from_parameter(self, "dest", dest)
 
-        fkey_index_spans = self.get_spans(field=index)
+        # IndexedStringField.get_spans() returns a python list; the span kernels need an ndarray
+        fkey_index_spans = np.asarray(self.get_spans(field=index))
 
         # execute the predicate (note that not every predicate requires a target)
         if target is None:
